@@ -13,6 +13,7 @@ from .c01 import C01
 from .common import USER, Tokens, seq_set, uid_set
 
 FAULT_KINDS = ['cancel', 'reset', 'eof']
+SPACE_OPS = ('open-w', 'os.open-w', 'close-w', 'link', 'rename', 'mkdir')
 
 
 def gen_fault_case(rng: random.Random, tier: str, backends=('dict',)) -> dict:
@@ -98,7 +99,7 @@ def dump_tokens(ctx: Ctx, name: str):
 
 def run_once(case: dict, fault: dict | None, trace: bool = False) -> dict:
     ctx = Ctx(case, trace=trace)
-    info = {'moves': 0, 'violations': [], 'cond': None}
+    info = {'moves': 0, 'fs_ops': 0, 'violations': [], 'cond': None}
     try:
         steps = case['steps']
         for i, step in enumerate(steps[:-1]):
@@ -107,12 +108,27 @@ def run_once(case: dict, fault: dict | None, trace: bool = False) -> dict:
                 cl.pending.clear()
         before = {n: dump_tokens(ctx, n) for n in ('INBOX', 'Dest')}
         step = copy.deepcopy(steps[-1])
-        if fault is not None:
+        fs = ctx.world.fs
+        if fault is not None and fault['kind'] == 'oserror':
+            # the n-th mutating file-system call of the step fails
+            import errno
+            if fs is not None:
+                fs.fail_at[fs.mutations + fault['at']] = errno.ENOSPC
+        elif fault is not None:
             step['faults'] = [{'kind': fault['kind'], 'sess': 0,
                                'at': fault['at']}]
         m0 = ctx.world.moves
+        f0 = fs.mutations if fs is not None else 0
+        l0 = len(fs.log) if fs is not None else 0
         cmds = ctx.run_step(step, len(steps) - 1)
         info['moves'] = ctx.world.moves - m0
+        info['fs_ops'] = (fs.mutations - f0) if fs is not None else 0
+        if fs is not None:
+            from sim.fs import MUTATING
+            info['fs_kinds'] = [op for _, op, _, _ in fs.log[l0:]
+                                if op in MUTATING]
+        if fs is not None:
+            fs.fail_at.clear()
         ctx.run_step({'actions': []}, len(steps))      # let things settle
         target = None
         tcmd = None
@@ -219,6 +235,12 @@ def run_enumeration(case: dict, trace: bool = False) -> dict:
     if not res['violations']:
         points = range(base['moves'] + 1)
         plan = [(k, at) for k in FAULT_KINDS for at in points]
+        # maildir: an exception (ENOSPC) from the n-th storage call
+        # (disk full: only calls that need space can fail that way)
+        space = [at for at, op in enumerate(base.get('fs_kinds', ()))
+                 if op in SPACE_OPS]
+        plan += [('oserror', at) for at in space]
+        stats['fs_fault_points'] = len(space)
         if only is not None:
             plan = [(only['kind'], only['at'])]
         for kind, at in plan:
@@ -257,7 +279,11 @@ class C14(Profile):
             'The case is run fault-free to count the scheduler moves of the '
             'target step (N), then re-run once per fault kind (task '
             'cancellation, connection reset, client EOF) x every position '
-            '0..N: exhaustive per base case. Probe dumps of both mailboxes '
+            '0..N, and on maildir once per mutating file-system call of the '
+            'target step that needs disk space (create, write-out at close, '
+            'link, rename, mkdir) with that call raising OSError(ENOSPC): '
+            'exhaustive '
+            'per base case. Probe dumps of both mailboxes '
             'before and after. Oracle: conservation of tokens, APPEND '
             'all-or-nothing, completed MOVE in exactly one mailbox, NO/BAD '
             'changes nothing. evaluations = base cases; fault_runs counts '
@@ -266,8 +292,8 @@ class C14(Profile):
         'on the dict backend the window between removing a moved message '
         'and adding it to the destination only opens at awaits that suspend '
         'under lock_yield (asyncio.Lock never suspends uncontended)',
-        'storage-call failures and process kill apply to maildir only and '
-        'are exercised by C15']
+        'storage-call failures are injected on maildir only (the dict '
+        'backend has no storage calls); process kill is exercised by C15']
     components = C01.components
 
     def gen(self, rng, tier):
